@@ -23,10 +23,10 @@ partial def statefulLoopU.{u} {σ : Type u} (h : IO.FS.Stream) (out : IO.FS.Stre
 
 structure MergeDrv where
   reverse : Bool := false
-  srcs : List (List Entry) := []
+  srcs : List (List ItEntry) := []
   it : Option AnyIter := none
 
-def parseEntry (s : String) : Option Entry :=
+def itParseEntry (s : String) : Option ItEntry :=
   match s.splitOn ":" with
   | [k, v] =>
     match hexArg k, hexArg v with
@@ -34,7 +34,7 @@ def parseEntry (s : String) : Option Entry :=
     | _, _ => none
   | _ => none
 
-def entryStr (e : Entry) : String := toHex e.key ++ ":" ++ toHex e.val
+def itEntryStr (e : ItEntry) : String := toHex e.key ++ ":" ++ toHex e.val
 
 def curStr (it : AnyIter) : String :=
   match it.cur with
@@ -69,7 +69,7 @@ partial def parseTree (d : MergeDrv) : List String → Option (Option AnyIter ×
     else none
 
 /-- `drain n`: the consumer loop, at most `n` entries. -/
-def drainIt : Nat → AnyIter → List Entry → AnyIter × List Entry
+def drainIt : Nat → AnyIter → List ItEntry → AnyIter × List ItEntry
   | 0, it, acc => (it, acc.reverse)
   | n + 1, it, acc =>
     match it.cur with
@@ -80,7 +80,7 @@ def mergeStep (d : MergeDrv) (line : String) : MergeDrv × String :=
   match words line with
   | ["reset", r] => ({ reverse := r == "1" }, "ok")
   | "src" :: i :: _kind :: es =>
-    match natArg i, es.mapM parseEntry with
+    match natArg i, es.mapM itParseEntry with
     | some i, some es => if i == d.srcs.length then ({ d with srcs := d.srcs ++ [es] }, "ok") else (d, "bad-op")
     | _, _ => (d, "bad-op")
   | "build" :: toks =>
@@ -105,7 +105,7 @@ def mergeStep (d : MergeDrv) (line : String) : MergeDrv × String :=
     match d.it, natArg n with
     | some it, some n =>
       let (it, es) := drainIt n it []
-      ({ d with it := some it }, if es.isEmpty then "-" else " ".intercalate (es.map entryStr))
+      ({ d with it := some it }, if es.isEmpty then "-" else " ".intercalate (es.map itEntryStr))
     | none, some _ => (d, "noiter")
     | _, _ => (d, "bad-op")
   | _ => (d, "bad-op")
@@ -158,9 +158,13 @@ def sklStep (d : SklDrv) (line : String) : SklDrv × String :=
     match natArg i with
     | some i => (d, let l := d.s.level i; if l.isEmpty then "-" else " ".intercalate (l.map toHex))
     | none => (d, "bad-op")
+  | ["tower"] =>
+    (d, " | ".intercalate ((List.range d.s.height).map (fun i =>
+          let l := d.s.level i
+          if l.isEmpty then "-" else " ".intercalate (l.map toHex))))
   | ["dump"] =>
     (d, let l := d.s.toList
-        if l.isEmpty then "-" else " ".intercalate (l.map entryStr))
+        if l.isEmpty then "-" else " ".intercalate (l.map itEntryStr))
   | ["empty"] => (d, boolStr d.s.isEmpty)
   -- bidirectional `Iterator`
   | ["first"] => itStep d (some d.s.seekToFirst)
